@@ -21,6 +21,11 @@
 //	                             second one sharing registry, storage and trust flag (sys=2).  Its
 //	                             observation comes first; "notrun" when the opener was never reached.
 //	C:<proto>:<holder>:<value>   ComputeLink
+//	MC:.. MS:.. MG:<l|f>:..      MustComputeLink / MustStore / MustLoad / MustFill: as C / S / G, status
+//	                             "panic" exactly when the plain call returns an error
+//	P:S:<proto>:<holder>:<value> (only at the start) Store through a DefaultLinkSystem (global
+//	                             registry) on the same storage — blocks for a private registry that
+//	                             can only decode
 //	G:<form>:<link binary hex>[:<holder>]   form l=Load r=LoadRaw p=LoadPlusRaw f=Fill; with a holder:
 //	                             into that holder's (schema-typed) node prototype instead of Prototype.Any
 //
@@ -59,6 +64,8 @@ import (
 
 type op struct {
 	kind   byte // S W C G N
+	must   bool // the Must* variant of C / S / G(l, f)
+	global bool // S through the global-registry link system on the same storage
 	inner  *op  // N: the nested operation
 	sys    int  // N: 1 = same link system, 2 = the second one
 	sched  string
@@ -70,6 +77,16 @@ type op struct {
 }
 
 func (o *op) text() string {
+	if o.must {
+		c := *o
+		c.must = false
+		return "M" + c.text()
+	}
+	if o.global {
+		c := *o
+		c.global = false
+		return "P:" + c.text()
+	}
 	switch o.kind {
 	case 'S', 'C':
 		return fmt.Sprintf("%c:%s:%s:%s", o.kind, o.proto.Spec(), o.holder, o.val.Text())
@@ -85,6 +102,20 @@ func (o *op) text() string {
 }
 
 func parseOp(s string) (*op, error) {
+	if strings.HasPrefix(s, "P:") {
+		o, err := parseOp(s[2:])
+		if err == nil {
+			o.global = true
+		}
+		return o, err
+	}
+	if strings.HasPrefix(s, "MC:") || strings.HasPrefix(s, "MS:") || strings.HasPrefix(s, "MG:") {
+		o, err := parseOp(s[1:])
+		if err == nil {
+			o.must = true
+		}
+		return o, err
+	}
 	f := strings.SplitN(s, ":", 4)
 	if len(f) < 3 {
 		return nil, fmt.Errorf("bad op %q", s)
@@ -147,6 +178,7 @@ type world struct {
 	reg   *lib.LkReg
 	lsys  linking.LinkSystem
 	lsys2 linking.LinkSystem // a second link system on the same registry, storage and trust flag
+	lsysG linking.LinkSystem // a DefaultLinkSystem (global registry) on the same storage
 	mem  *memstore.Store
 	cid  *cidlink.Memory
 }
@@ -163,6 +195,9 @@ func newWorld(kind string, trusted bool, reg *lib.LkReg) *world {
 		w.lsys.SetReadStorage(w.mem)
 		w.lsys.SetWriteStorage(w.mem)
 	}
+	w.lsysG = cidlink.DefaultLinkSystem()
+	w.lsysG.StorageReadOpener = w.lsys.StorageReadOpener
+	w.lsysG.StorageWriteOpener = w.lsys.StorageWriteOpener
 	w.lsys2 = reg.LinkSystem()
 	w.lsys2.TrustedStorage = trusted
 	w.lsys2.StorageReadOpener = w.lsys.StorageReadOpener
@@ -234,6 +269,7 @@ type kept struct {
 }
 
 type runner struct {
+	dead    bool // building the link system over the registry panicked
 	w       *world
 	tab     *lib.LkTables
 	obs     []string
@@ -283,7 +319,11 @@ func (rn *runner) recheck(all bool) {
 }
 
 func newRunner(kind string, trusted bool, reg *lib.LkReg) *runner {
-	return &runner{w: newWorld(kind, trusted, reg), tab: lib.NewLkTables()}
+	rn := &runner{tab: lib.NewLkTables()}
+	if err := lib.Safely(func() error { rn.w = newWorld(kind, trusted, reg); return nil }); err != nil {
+		rn.dead = true
+	}
+	return rn
 }
 
 // exec performs one S/W/C/G operation on the given link system and returns its observation.
@@ -301,7 +341,11 @@ func (rn *runner) exec(o *op, lsys *linking.LinkSystem) string {
 		}
 		// tables: encoding (JSON codecs) and digest of the encoding under this prototype's hash
 		tab.Hasher(o.proto.MhType)
-		if impl, ok := w.reg.Enc[o.proto.Codec]; ok {
+		encTab := w.reg.Enc
+		if o.global {
+			encTab = lib.LkGlobalReg().Enc
+		}
+		if impl, ok := encTab[o.proto.Codec]; ok {
 			if o.kind == 'W' {
 				tab.EncodeChunks(impl, o.val, n) // the schedule counts the real Write calls
 			} else {
@@ -318,10 +362,18 @@ func (rn *runner) exec(o *op, lsys *linking.LinkSystem) string {
 		var l datamodel.Link
 		err = lib.Safely(func() error {
 			var e error
-			if o.kind == 'S' || o.kind == 'W' {
+			switch {
+			case o.must && o.kind == 'S':
+				l = lsys.MustStore(linking.LinkContext{}, o.proto.LP(), n)
+			case o.must:
+				l = lsys.MustComputeLink(o.proto.LP(), n)
+			case o.kind == 'S' || o.kind == 'W':
 				l, e = lsys.Store(linking.LinkContext{}, o.proto.LP(), n)
-			} else {
+			default:
 				l, e = lsys.ComputeLink(o.proto.LP(), n)
+			}
+			if o.must && l == nil {
+				return fmt.Errorf("Must* returned a nil link")
 			}
 			return e
 		})
@@ -354,6 +406,19 @@ func (rn *runner) exec(o *op, lsys *linking.LinkSystem) string {
 		np := lib.LkProtoFor(o.holder)
 		err = lib.Safely(func() error {
 			var e error
+			switch {
+			case o.must && o.form == 'l':
+				n = lsys.MustLoad(linking.LinkContext{}, l, np)
+				if n == nil {
+					return fmt.Errorf("MustLoad returned a nil node")
+				}
+				return nil
+			case o.must:
+				nb := np.NewBuilder()
+				lsys.MustFill(linking.LinkContext{}, l, nb)
+				n = nb.Build()
+				return nil
+			}
 			switch o.form {
 			case 'l':
 				n, e = lsys.Load(linking.LinkContext{}, l, np)
@@ -387,6 +452,15 @@ func (rn *runner) exec(o *op, lsys *linking.LinkSystem) string {
 // do executes the next op of the history.  An N op only arms the hook: its inner operation runs
 // inside the storage opener of the following op and its observation slot is filled in then.
 func (rn *runner) do(o *op) {
+	if rn.dead {
+		rn.obs = append(rn.obs, "regpanic/-")
+		return
+	}
+	if o.global {
+		rn.cur = len(rn.obs)
+		rn.obs = append(rn.obs, rn.exec(o, &rn.w.lsysG))
+		return
+	}
 	if o.kind == 'N' {
 		slot := len(rn.obs)
 		rn.obs = append(rn.obs, "notrun")
@@ -414,6 +488,9 @@ func (rn *runner) do(o *op) {
 
 
 func (rn *runner) finish() (string, string) {
+	if rn.dead {
+		return strings.Join(append(append([]string{}, rn.obs...), "#", "R:ok"), ";"), rn.tab.Text()
+	}
 	var ents []string
 	for k, b := range rn.w.bag() {
 		ents = append(ents, lib.Hex(k)+"="+lib.Hex(string(b)))
@@ -536,6 +613,17 @@ func genReg(r *lib.Rng) *lib.LkReg {
 	}
 	if r.Intn(2) == 0 {
 		rg.Dec[uint64(0x300020+r.Intn(2))] = implsAll[r.Intn(len(implsAll))]
+	}
+	// how the zero-value Registry gets populated: encoders first, decoders first, a Lookup/List first
+	rg.Order = []string{"", "d", "l"}[r.Intn(3)]
+	switch r.Intn(8) {
+	case 0: // a registry that can only encode
+		rg.Dec = map[uint64]uint64{}
+	case 1, 2: // a registry that can only decode (blocks come from another link system: P ops)
+		rg.Enc = map[uint64]uint64{}
+		if len(rg.Dec) == 0 {
+			rg.Dec[lib.LkDagCbor] = lib.LkDagCbor
+		}
 	}
 	return rg
 }
@@ -723,6 +811,34 @@ func genHistory(r *lib.Rng, maxOps int) (string, bool, *lib.LkReg, []*op) {
 			}
 		}
 	}
+	// blocks stored through a DefaultLinkSystem on the same storage before the history proper: what a
+	// private registry (possibly decode-only) then loads
+	if !reg.Global && (len(reg.Enc) == 0 || r.Intn(3) == 0) {
+		for i, n := 0, 1+r.Intn(3); i < n; i++ {
+			std := []uint64{lib.LkDagCbor, lib.LkDagJson, lib.LkCbor, lib.LkJson, lib.LkRaw}
+			c := std[r.Intn(len(std))]
+			for try := 0; try < 6; try++ { // prefer a code this registry can decode
+				if _, ok := reg.Dec[c]; ok {
+					break
+				}
+				c = std[r.Intn(len(std))]
+			}
+			mht := []uint64{0x12, 0x13, 0x16}[r.Intn(3)]
+			o := &op{kind: 'S', global: true, proto: lib.LkProto{Version: 1, Codec: c, MhType: mht, MhLen: -1}, holder: "basic", val: r.LkGenVal(c)}
+			ops = append(ops, o)
+			live.do(o)
+		}
+	}
+	// must: the Must* variant right after the plain call on the same input
+	must := func(o *op) {
+		if o.kind == 'W' || (o.kind == 'G' && o.form != 'l' && o.form != 'f') || r.Intn(6) != 0 {
+			return
+		}
+		m := *o
+		m.must = true
+		ops = append(ops, &m)
+		live.do(&m)
+	}
 	for len(ops) < nops {
 		if r.Intn(14) == 0 {
 			typed()
@@ -807,6 +923,7 @@ func genHistory(r *lib.Rng, maxOps int) (string, bool, *lib.LkReg, []*op) {
 			}
 			ops = append(ops, o)
 			live.do(o)
+			must(o)
 		default:
 			l := live.links[r.Intn(len(live.links))]
 			if r.Intn(15) == 0 {
@@ -827,6 +944,7 @@ func genHistory(r *lib.Rng, maxOps int) (string, bool, *lib.LkReg, []*op) {
 			}
 			ops = append(ops, o)
 			live.do(o)
+			must(o)
 		}
 	}
 	return kind, trusted, reg, ops
@@ -967,6 +1085,29 @@ func main() {
 		}
 	}
 
+	// zero-value registries populated decoders-first / after a Lookup and List / with decoders only,
+	// loading blocks that a DefaultLinkSystem stored on the same storage; Must* variants
+	for _, spec := range []string{"Rd:71=71,55=55,300001=129", "Rl:71=71,129=129", "Rd:71=71:d,55=55:d,129=129:d", "R:71=71:e,55=55:e", "Rl:300020=71:d"} {
+		rg, err := lib.LkParseReg(spec)
+		if err != nil {
+			panic(err)
+		}
+		var ops []*op
+		pc := lib.LkProto{Version: 1, Codec: lib.LkDagCbor, MhType: 0x12, MhLen: -1}
+		pr := lib.LkProto{Version: 1, Codec: lib.LkRaw, MhType: 0x13, MhLen: -1}
+		ops = append(ops, &op{kind: 'S', global: true, proto: pc, holder: "basic", val: m1},
+			&op{kind: 'S', global: true, proto: pr, holder: "basic", val: lib.Bytes("stored elsewhere")})
+		ops = append(ops, &op{kind: 'C', proto: pc, holder: "basic", val: m2}, &op{kind: 'C', must: true, proto: pc, holder: "basic", val: m2},
+			&op{kind: 'S', proto: pc, holder: "basic", val: m2}, &op{kind: 'S', must: true, proto: pc, holder: "basic", val: m2})
+		_, _, ls := runHistory("mem", false, rg, ops)
+		for _, l := range uniq(ls) {
+			for _, f := range "lrpf" {
+				ops = append(ops, &op{kind: 'G', form: byte(f), link: l})
+			}
+			ops = append(ops, &op{kind: 'G', must: true, form: 'l', link: l}, &op{kind: 'G', must: true, form: 'f', link: l})
+		}
+		emit(out, next("z"), "mem", false, rg, ops)
+	}
 	// raw blocks of descending and ascending sizes loaded in a row through each load function; what
 	// every load returned is retained and read again at the end
 	for _, kind := range []string{"mem", "cid"} {
